@@ -64,6 +64,7 @@ type caseT struct {
 	Path     string
 	AE       *string // nil: header absent
 	Recovery bool    `json:",omitempty"` // recovery.New() in front of the compression middleware
+	Pre      [][2]string `json:",omitempty"` // headers an outer middleware sets before the chain goes on
 	Prog     []opT
 }
 
@@ -482,6 +483,9 @@ func realRun(k *caseT, withMW bool, nw []int) respT {
 	if k.Recovery {
 		r.Use(recovery.New(recovery.WithoutLogging()))
 	}
+	if len(k.Pre) > 0 {
+		r.Use(outer(k.Pre, nil))
+	}
 	if withMW {
 		r.Use(compression.New(buildOpts(k.Opt)...))
 	}
@@ -542,12 +546,28 @@ func realRun(k *caseT, withMW bool, nw []int) respT {
 	return out
 }
 
+// outer is a middleware in front of the compression middleware that sets response headers
+func outer(pre [][2]string, after func()) router.HandlerFunc {
+	return func(c *router.Context) {
+		for _, kv := range pre {
+			c.Response.Header().Set(kv[0], kv[1])
+		}
+		if after != nil {
+			after()
+		}
+		c.Next()
+	}
+}
+
 func dryRun(k *caseT) ([]primT, []int) {
 	f := newFake()
 	f.nw = make([]int, len(k.Prog)+1)
 	r := router.MustNew()
 	if k.Recovery {
 		r.Use(recovery.New(recovery.WithoutLogging()))
+	}
+	if len(k.Pre) > 0 {
+		r.Use(outer(k.Pre, func() { f.last = f.h.Clone() })) // initial headers, not handler operations
 	}
 	res := &runRes{}
 	r.GET(k.Path, func(c *router.Context) {
@@ -689,6 +709,19 @@ func emit(id string, k *caseT, st *hx.Stats) string {
 		l.Str("")
 	}
 	l.Bool(k.Recovery)
+	pre := map[string]string{}
+	for _, kv := range k.Pre {
+		pre[http.CanonicalHeaderKey(kv[0])] = kv[1]
+	}
+	pk := make([]string, 0, len(pre))
+	for key := range pre {
+		pk = append(pk, key)
+	}
+	sort.Strings(pk)
+	l.Nat(len(pk))
+	for _, key := range pk {
+		l.Str(key).Nat(1).Str(pre[key])
+	}
 	tab := sniffTable(prims)
 	l.Nat(len(tab))
 	for _, e := range tab {
@@ -752,6 +785,12 @@ func emit(id string, k *caseT, st *hx.Stats) string {
 		}
 		if nFlush > 0 {
 			st.Count("has_flush")
+		}
+		if len(k.Pre) > 0 {
+			st.Count("outer_headers")
+		}
+		if with.Kind == "R" && plain.Kind == "R" && with.CE != plain.CE {
+			st.Count("compressed")
 		}
 		if !explicit {
 			st.Count("no_explicit_status")
